@@ -17,7 +17,8 @@ RULE = ("target strings by class (dotted IPv4, IPv4 CIDR /0../32 aligned and una
         "entries plus one invalid / IPv6 / over-long line combined with -i, --srcmac, -r (exit 1, nothing on the wire) and the "
         "accepted counterpart (exactly the uncovered addresses on the wire); arp --live with --exclude (first passes observed, then "
         "interrupted); docker / elastic / socks (http and https) against local target listeners with DOCKER_HOST, HTTP_PROXY, "
-        "HTTPS_PROXY, ALL_PROXY pointing at a decoy listener (no connection may go anywhere but to the targets); non-trivial = accepted target / complete or prefix walk / "
+        "HTTPS_PROXY, ALL_PROXY pointing at a decoy listener, and against target listeners (http and https) that answer every request "
+        "with 301/302/307/308 and a Location at the decoy (no connection may go anywhere but to the targets); non-trivial = accepted target / complete or prefix walk / "
         "accepted exclusion file; distinct by input")
 
 CODES = {1: "ParseIPNet: accept/reject differs from the model", 2: "ParseIPNet: accepted net differs from the model",
@@ -239,7 +240,8 @@ def nested_pairs(o):
 # Genuine defects of the UNCHANGED code found by this check and reported to the lead with a fix patch; until the fix is
 # committed (or a known_findings.json entry exists) findings with these keys are printed as PENDING-DEFECT and do not
 # fail the check.  REMOVE the entry once fixes/c02/fix-docker-scan-ignores-proxy-env.patch is applied.
-PENDING_DEFECTS = {}      # (the docker proxy-environment defect was repaired by fix e830a21)
+# (the docker proxy-environment defect was repaired by fix e830a21)
+PENDING_DEFECTS = {}
 
 
 def judge_e2e(o):
@@ -258,10 +260,14 @@ def judge_e2e(o):
         def show(k):
             return "%s:%d" % (dotted(int.from_bytes(k[:4], "big")), int.from_bytes(k[4:], "big"))
         env = (" with " + " ".join(o["env"])) if o.get("env") else ""
+        named = "the endpoint named in the environment"
+        if o.get("redirect"):
+            env = " against targets answering %s with Location %s" % tuple(o["redirect"].split(":", 1))
+            named = "the Location of the targets' answer"
         decoy = bytes.fromhex(o["decoy"]) if o.get("decoy") else None
         if decoy and got.get(decoy):
-            return "sx %s%s: %d connection(s) go to %s, which is not a target (the endpoint named in the environment), %d to the %d targets" % (
-                argv, env, got[decoy], show(decoy), sum(v for k, v in got.items() if k in want), len(want))
+            return "sx %s%s: %d connection(s) go to %s, which is not a target (%s), %d to the %d targets" % (
+                argv, env, got[decoy], show(decoy), named, sum(v for k, v in got.items() if k in want), len(want))
         extra = sorted(k for k in got if k not in want)
         if extra:
             what = "is covered by the exclusion file but probed" if o["class"].startswith("exclude-live") else "is not a target but is contacted"
@@ -440,7 +446,7 @@ def run(ctx):
             ctx.broken.append(("correspondence: the sx binary does not build", out[-1500:]))
         else:
             ok, _ = ctx.harness_run("c01", ["-e2e", sx, "-e2eset", "refuse", "-out", "e2e.jsonl", "-seed", ctx.seed,
-                                            "-ne2e", 38 if quick else 240], timeout=3000)
+                                            "-ne2e", 42 if quick else 300], timeout=3000)
             if ok:
                 e2e = ctx.read_jsonl(os.path.join(ctx.work, "e2e.jsonl"))
         pending_seen = set()
@@ -455,6 +461,8 @@ def run(ctx):
                 k = "e2e:" + (o["class"] + ":" + o.get("opt", "") if o.get("opt") else o["argv"][-1])
                 if o["class"] in ("appenv:docker", "appenv:docker-https") and o.get("opt") in ("HTTP_PROXY", "HTTPS_PROXY", "ALL_PROXY"):
                     k = "e2e:appenv:docker:proxy-env"
+                if o["class"].startswith("redirect:") and "go to" in why:
+                    k = "e2e:redirect:%s:follows-redirect" % o["class"].split(":")[1].replace("-https", "")
                 rep = {"property": "C02", "what": why, "input": {"kind": "e2e", "index": idx, "seed": ctx.seed, "argv": o["argv"]},
                        "observed": {k2: v for k2, v in o.items() if k2 != "frames"}, "replay_cmd": "bin/check C02 --replay <this file>"}
                 if k in PENDING_DEFECTS:
